@@ -350,7 +350,7 @@ subroutine z_pr(nc, T, P, mass, Mol_wt, Pc, Tc, omega, delta, Aij, Bij, &
     do i = 1, 3
         if (aimag(z_roots(i)) == 0.0) then
             if ((real(z_roots(i)) < z_min) .and. &
-              & (real(z_roots(i)) > 0.0D0)) then
+              & (real(z_roots(i)) > B)) then
                 z_min = real(z_roots(i))
             end if
         end if
